@@ -9,7 +9,9 @@ C14 model driver. Requests:
 -/
 import DarsiaModel.Basic
 import DarsiaModel.SignalModels
+import DarsiaModel.SignalOps
 import DarsiaModel.KernelInterp
+import DarsiaGen.SignalTables
 open Darsia Darsia.Sig
 
 def pOptRat : P (Option Rat) := P.opt P.rat
@@ -54,57 +56,73 @@ def bar : P Unit := do let t ← P.tok; if t = "|" then pure () else failure
 
 def pPix : P (List Pixel) := P.list (do let l ← P.nat; let v ← P.rat; pure ⟨l, v⟩)
 
-def showOut (r : Except Err (List M)) (sig : List Pixel) : String :=
+def parseDType : String → Option DType
+  | "u8" => some .u8 | "u16" => some .u16 | "i64" => some .i64 | "f32" => some .f32 | "f64" => some .f64
+  | "bool" => some .bool | _ => none
+
+def Darsia.Sig.DType.show : DType → String
+  | .u8 => "u8" | .u16 => "u16" | .i64 => "i64" | .f32 => "f32" | .f64 => "f64" | .bool => "bool"
+
+/-- operational call: label VALUES per pixel, element type of the signal; response `<dtype> v ..` -/
+def showOut (r : Except Err (List M)) (d : DType) (sig : List Pixel) : String :=
   match r with
   | .error e => e.show
-  | .ok ms => showRats ((applyAll ms sig).map (·.val))
+  | .ok ms =>
+    let out := callAll ms (sig.map (·.label)) d (sig.map (·.val))
+    out.1.show ++ " " ++ showRats out.2
 
 def pRun : P String := do
   let mode ← P.tok
+  let dt ← P.tok
+  let d ← (match parseDType dt with | some d => pure d | none => failure : P DType)
   let ms ← P.list pModel
   bar; let u ← pUpd; bar; let sig ← pPix; P.done
   if mode = "comb" then
     match u with
-    | .skip => pure (showOut (.ok ms) sig)
-    | .all ps => pure (showOut (updateAll ms ps) sig)
-    | .sub dofs ps => pure (showOut (updateSubset ms dofs ps) sig)
+    | .skip => pure (showOut (.ok ms) d sig)
+    | .all ps => pure (showOut (updateAll ms ps) d sig)
+    | .sub dofs ps => pure (showOut (updateSubset ms dofs ps) d sig)
   else
     match ms, u with
-    | [m], .skip => pure (showOut (.ok [m]) sig)
-    | [m], .all ps => pure (showOut ((m.update ps .all).map fun r => [r.1]) sig)
-    | [m], .sub [(_, spec)] ps => pure (showOut ((m.update ps spec).map fun r => [r.1]) sig)
+    | [m], .skip => pure (showOut (.ok [m]) d sig)
+    | [m], .all ps => pure (showOut ((m.update ps .all).map fun r => [r.1]) d sig)
+    | [m], .sub [(_, spec)] ps => pure (showOut ((m.update ps spec).map fun r => [r.1]) d sig)
     | _, _ => failure
 
-def pMask (n : Nat) : P (List (Option Bool)) := do
+def pMaskL (n : Nat) : P (Option (List Bool)) := do
   let t ← P.tok
   match t with
-  | "nomask" => pure (List.replicate n none)
-  | "mask" => do let bs ← P.rep P.bool n; pure (bs.map some)
+  | "nomask" => pure none
+  | "mask" => do let bs ← P.rep P.bool n; pure (some bs)
   | _ => failure
 
+def showThr (r : DType × List Bool) : String := r.1.show ++ " " ++ " ".intercalate (r.2.map showBool)
+
+/-- `thr hom lo hi|none rf | nomask / mask b.. | npix (labelvalue val)..` ; `thr het L lo.. none / some hi.. rf | …` -/
 def pThr : P String := do
   let t ← P.tok
   match t with
   | "hom" => do
-    let lo ← P.rat; let hi ← pOptRat; bar
+    let lo ← P.rat; let hi ← pOptRat; let rf ← P.bool; bar
     -- mask length is known only after the pixels: read the remaining tokens in two passes
     let rest ← get
     let maskToks := rest.takeWhile (· ≠ "|")
     set (rest.dropWhile (· ≠ "|")); bar
     let sig ← pPix; P.done
-    let (mask, _) ← (pMask sig.length).run maskToks
-    pure (" ".intercalate ((sig.zip mask).map fun (p, m) => showBool (thrHom lo hi m p)))
+    let (mask, _) ← (pMaskL sig.length).run maskToks
+    pure (showThr (thrFinish rf mask (thrHomCall lo hi (sig.map (·.val)))))
   | "het" => do
     let L ← P.nat; let lo ← P.rep P.rat L
     let h ← P.tok
     let hi ← if h = "none" then pure none else (do let l ← P.rep P.rat L; pure (some l))
+    let rf ← P.bool
     bar
     let rest ← get
     let maskToks := rest.takeWhile (· ≠ "|")
     set (rest.dropWhile (· ≠ "|")); bar
     let sig ← pPix; P.done
-    let (mask, _) ← (pMask sig.length).run maskToks
-    pure (" ".intercalate ((sig.zip mask).map fun (p, m) => showBool (thrHet lo hi m p)))
+    let (mask, _) ← (pMaskL sig.length).run maskToks
+    pure (showThr (thrFinish rf mask (thrHetCall lo hi (sig.map (·.label)) (sig.map (·.val)))))
   | _ => failure
 
 /-! ### kernel interpolation state machine
@@ -156,18 +174,35 @@ def pKern : P String := do
   P.done
   pure (runShow (init k0) ops 0)
 
+/-- `lincomb a n (w sx sy sz).. | p x y z / l N x y z .. / g H W x y z ..` : LinearKernel(a).linear_combination -/
+def pLinComb : P String := do
+  let a ← P.rat
+  let wss ← P.list (do let w ← P.rat; let s ← P.rep P.rat 3; pure (w, s))
+  bar
+  let t ← P.tok
+  let sig ← (match t with
+    | "p" => do let x ← P.rep P.rat 3; pure (Kern.Signal.pixel x)
+    | "l" => do let xs ← P.list (P.rep P.rat 3); pure (Kern.Signal.list xs)
+    | "g" => do
+      let h ← P.nat; let w ← P.nat
+      let rows ← P.rep (P.rep (P.rep P.rat 3) w) h
+      pure (Kern.Signal.grid rows)
+    | _ => failure : P Kern.Signal)
+  P.done
+  pure (showRats (sig.combine (Kern.linK a) (wss.map (·.1)) (wss.map (·.2))))
+
 /-- `wrap <L> <model>×L | <npix> (label val)..` : HeterogeneousModel with one model per label -/
 def pWrap : P String := do
   let ms ← P.list pModel
   bar; let sig ← pPix; P.done
-  pure (showRats ((wrapApply ms sig).map (·.val)))
+  pure ("f64 " ++ showRats (wrapCall ms (sig.map (·.label)) (sig.map (·.val))))
 
 /-- `resize h w H W v..` : row-major h×w map resized to H×W -/
 def pResize : P String := do
   let h ← P.nat; let w ← P.nat; let H ← P.nat; let W ← P.nat
   let rows ← P.rep (P.rep P.nat w) h
   P.done
-  pure (" ; ".intercalate ((labelsFor rows H W).map showNats))
+  pure (" ; ".intercalate ((labelsFor Gen.nearDev rows H W).map showNats))
 
 /-- `labelseq h w v.. | k H W ..` : the label map in force after calls with signals of these shapes -/
 def pLabelSeq : P String := do
@@ -176,12 +211,13 @@ def pLabelSeq : P String := do
   bar
   let shapes ← P.list (do let a ← P.nat; let b ← P.nat; pure (a, b))
   P.done
-  pure (" ; ".intercalate ((cacheRun rows shapes).map showNats))
+  pure (" ; ".intercalate ((cacheRun Gen.nearDev rows shapes).map showNats))
 
 def dispatch : List String → Option String
   | "kern" :: rest => (pKern.run rest).map (·.1)
   | "labelseq" :: rest => (pLabelSeq.run rest).map (·.1)
   | "wrap" :: rest => (pWrap.run rest).map (·.1)
+  | "lincomb" :: rest => (pLinComb.run rest).map (·.1)
   | "resize" :: rest => (pResize.run rest).map (·.1)
   | "run" :: rest => (pRun.run rest).map (·.1)
   | "thr" :: rest => (pThr.run rest).map (·.1)
